@@ -2,25 +2,30 @@
 # tools/verify_seed.sh <dir with patch.diff + demo.py> <tag>
 # Confirms in a scratch worktree of /repo (outside /repo and /verif, removed afterwards) that
 #  - the demo passes on the unchanged tree, fails with the patch,
-#  - the baseline test-suite result (passed-test set) is unchanged by the patch.
-# Prints one summary line; full logs in /tmp/seedverify/<tag>.log
+#  - the baseline test-suite result (passed / failed / error sets) is unchanged by the patch.
+# The test-suite runs are serialised with a lock (each needs several GB); the result list of the unchanged tree is
+# computed once per /repo commit and cached under /tmp/seedverify.  Prints one summary line; logs in /tmp/seedverify/<tag>.log
 SRC="$1"; TAG="$2"
 WT="/tmp/sv_$TAG"
 mkdir -p /tmp/seedverify
 LOG="/tmp/seedverify/$TAG.log"
 : > "$LOG"
+HEAD=$(git -C /repo rev-parse --short HEAD)
+BASE="/tmp/seedverify/BASE.$HEAD.txt"
 git -C /repo worktree remove --force "$WT" >/dev/null 2>&1
 git -C /repo worktree add --detach "$WT" HEAD -q >>"$LOG" 2>&1 || { echo "$TAG worktree-failed"; exit 2; }
 mkdir -p "$WT/_seed/X"; cp "$SRC/demo.py" "$WT/_seed/X/demo.py"
-run_demo() { (cd "$WT" && PYTHONPATH="$WT" PYTHONWARNINGS=ignore timeout 1200 /venv/bin/python _seed/X/demo.py >>"$LOG" 2>&1); echo $?; }
-run_tests() { (cd "$WT" && PYTHONPATH="$WT" timeout 1500 /venv/bin/python -m pytest -q -p no:cacheprovider -q tests -rA 2>&1 | grep -E "^(PASSED|FAILED|ERROR)" | sort > "$1"); }
+run_demo() { (cd "$WT" && PYTHONPATH="$WT" PYTHONWARNINGS=ignore timeout 1800 /venv/bin/python _seed/X/demo.py >>"$LOG" 2>&1); echo $?; }
+run_tests() { (cd "$WT" && PYTHONPATH="$WT" flock /tmp/seedverify/pytest.lock timeout 2400 /venv/bin/python -m pytest -q -p no:cacheprovider -q tests -rA 2>&1 | grep -E "^(PASSED|FAILED|ERROR)" | sort > "$1"); }
 echo "== demo on clean" >>"$LOG"; D0=$(run_demo)
-run_tests "/tmp/seedverify/$TAG.base.txt"
+if [ ! -s "$BASE" ] || [ "$(grep -c '^PASSED' "$BASE")" -lt 60 ]; then run_tests "$BASE.$$" && mv "$BASE.$$" "$BASE"; fi
 git -C "$WT" checkout -- . >>"$LOG" 2>&1
+git -C "$WT" clean -fdq examples >>"$LOG" 2>&1
 if ! git -C "$WT" apply "$SRC/patch.diff" >>"$LOG" 2>&1; then echo "$TAG patch-does-not-apply"; git -C /repo worktree remove --force "$WT"; exit 2; fi
 echo "== demo with patch" >>"$LOG"; D1=$(run_demo)
 run_tests "/tmp/seedverify/$TAG.patched.txt"
-if cmp -s "/tmp/seedverify/$TAG.base.txt" "/tmp/seedverify/$TAG.patched.txt"; then T=same; else T=DIFFERENT; fi
+if [ "$(grep -c '' "/tmp/seedverify/$TAG.patched.txt")" -lt 60 ]; then sleep 20; run_tests "/tmp/seedverify/$TAG.patched.txt"; fi
+if cmp -s "$BASE" "/tmp/seedverify/$TAG.patched.txt"; then T=same; else T=DIFFERENT; fi
 NP=$(grep -c "^PASSED" "/tmp/seedverify/$TAG.patched.txt")
 git -C /repo worktree remove --force "$WT" >>"$LOG" 2>&1
 echo "$TAG demo_clean=$D0 demo_patched=$D1 tests=$T passed=$NP"
